@@ -105,6 +105,13 @@ pub fn run_case(c: &Case) -> CaseResult {
     let est_at_obj: i128 = est_at_fdt + c.obj_gap_ms as i128;
     let expires: i128 = c.duration_s as i128 * 1000;
     // decisive instants: the FDT on arrival, and (when it comes later) the first object packet
+    // Expires is carried as 32-bit NTP seconds: an instant beyond 2036-02-07 cannot be expressed, what a
+    // receiver makes of such an instance with the check ON is outside the property; with the check OFF
+    // expiry is ignored whatever the attribute says
+    let beyond_ntp = T0_SECS + c.duration_s >= 2_085_978_496;
+    if beyond_ntp && c.check {
+        return Ok(CaseInfo::excluded("domain: Expires beyond the 32-bit NTP second range with the check on"));
+    }
     let decisive: Vec<i128> = if c.obj_gap_ms >= 0 { vec![est_at_fdt, est_at_obj] } else { vec![est_at_fdt] };
     if decisive.iter().any(|e| (e - expires).abs() <= 2000) {
         return Ok(CaseInfo::excluded("domain: within +-2 s of Expires (granularity excluded by the property)"));
@@ -147,6 +154,7 @@ pub fn run_case(c: &Case) -> CaseResult {
     info.label_if(c.offset_s.unsigned_abs() > c.duration_s, "|offset| > duration");
     info.label(if expect_delivery { "expect delivery" } else { "expect nothing" });
     info.label_if(!c.check, "check disabled");
+    info.label_if(beyond_ntp, "check disabled and Expires beyond the NTP range");
     info.label_if(c.sct, "SCT present");
     info.label_if(c.obj_gap_ms < 0, "object before FDT");
     Ok(info)
@@ -155,7 +163,8 @@ pub fn run_case(c: &Case) -> CaseResult {
 pub fn case_strategy() -> BoxedStrategy<Case> {
     let year = 31_557_600i64;
     (
-        prop_oneof![Just(5u64), Just(30), Just(3600), 3u64..200_000],
+        // (20 years: Expires lies beyond the 32-bit NTP second range; only meaningful with the check off)
+        prop_oneof![4 => Just(5u64), 4 => Just(30), 4 => Just(3600), 12 => 3u64..200_000, 1 => Just(631_152_000u64)],
         any::<bool>(),
         prop_oneof![4 => Just(true), 1 => Just(false)],
         prop_oneof![
@@ -184,6 +193,7 @@ pub fn case_strategy() -> BoxedStrategy<Case> {
             };
             let obj_gap_ms = if before { -(obj_gap_ms % 60_000) } else { obj_gap_ms };
             let size = if scheme == Scheme::Raptor { size / 16 * 16 * 4 } else { size };
+            let check = if duration_s >= 600_000_000 { false } else { check };
             Case { duration_s, sct, check, offset_s, fdt_delay_ms, obj_gap_ms, scheme, inband_fti, size }
         })
         .boxed()
